@@ -459,6 +459,12 @@ func genDocCase(r *rng, i int) docCase {
 		}
 		c.runs = append(c.runs, q)
 	}
+	// what repeated queries of one request really look like: the same flow (addresses and ports) every time
+	if len(c.runs) > 1 && r.intn(3) == 0 {
+		for k := 1; k < len(c.runs); k++ {
+			c.runs[k].srcIP, c.runs[k].sport, c.runs[k].dstIP, c.runs[k].dport = c.runs[0].srcIP, c.runs[0].sport, c.runs[0].dstIP, c.runs[0].dport
+		}
+	}
 	for k := 0; k < c.e; k++ {
 		q := genDocQuery(r, c.maxTTL, true, used)
 		if allOK {
